@@ -302,9 +302,22 @@ def work_integration(chunk):
     from .. import families as F, runner
 
     last = datetime.datetime(2022, 6, 30, 12, 0, 0)
-    for sp, absence, remove in chunk:
+    for item in chunk:
+        sp, absence, remove = item[:3]
+        hist = item[3] if len(item) > 3 else None
         m = runner.prepare(sp, {})
-        m.project.simulate(max_time=40, absence_time_list=list(absence))
+        if hist == "appended":
+            # a second life cycle appended to the kept logs (states reset, logs kept)
+            m.project.simulate(max_time=40, absence_time_list=list(absence))
+            m.project.simulate(max_time=80, absence_time_list=list(absence), initialize_state_info=True, initialize_log_info=False)
+        elif hist == "resumed-with-fresh-logs":
+            m.project.simulate(max_time=2, absence_time_list=list(absence))
+            m.project.simulate(max_time=40, absence_time_list=list(absence), initialize_state_info=False, initialize_log_info=True)
+        elif hist == "stopped-and-continued":
+            m.project.simulate(max_time=2, absence_time_list=list(absence))
+            m.project.simulate(max_time=40, absence_time_list=list(absence), initialize_state_info=False, initialize_log_info=False)
+        else:
+            m.project.simulate(max_time=40, absence_time_list=list(absence))
         if remove:
             m.project.remove_absence_time_list()
         unit = datetime.timedelta(hours=2)
@@ -312,11 +325,11 @@ def work_integration(chunk):
         nlog = len(m.project.cost_list)
         col.evaluations += 1
         col.checks["c19.set_last_datetime-on-results"] += 1
-        key = ("integration", repr(sp["links"]), tuple(absence), remove)
+        key = ("integration", repr(sp["links"]), tuple(absence), remove, hist)
         col.states.add(hash(key))
         col.nontrivial.add(hash(key))
         if nlog >= 1 and init + (nlog - 1) * unit != last:
-            col.violation(viol("C19:set_last_datetime-last-logged-step-not-on-given-date", {"kind": "integration", "spec": sp, "absence": list(absence), "removed": remove, "time": m.project.time, "logged_steps": nlog,
+            col.violation(viol("C19:set_last_datetime-last-logged-step-not-on-given-date", {"kind": "integration", "spec": sp, "absence": list(absence), "removed": remove, "history": hist, "time": m.project.time, "logged_steps": nlog,
                                                                                            "last_step_date": str(init + (nlog - 1) * unit), "requested": str(last)}))
     return col
 
@@ -366,6 +379,9 @@ def run(tier, seed):
         for ab in ((), (1,), (0, 2), (1, 20, 21), (2, 2)):
             for rm in (False, True):
                 integ.append((sp, ab, rm))
+        for hist in ("appended", "resumed-with-fresh-logs", "stopped-and-continued"):
+            integ.append((sp, (), False, hist))
+            integ.append((sp, (1,), False, hist))
     col.merge(engines.fanout(integ, work_integration, seed=seed))
     meta = {
         "level": "exploration",
@@ -388,7 +404,7 @@ def replay(v):
     elif "extract" in v["sig"]:
         col = work_extract([(kind, len(d["logs"]), max([len(x) for x in d["logs"]] + [1]))])
     elif "last-logged-step" in v["sig"]:
-        col = work_integration([(d["spec"], tuple(d["absence"]), d["removed"])])
+        col = work_integration([(d["spec"], tuple(d["absence"]), d["removed"], d.get("history"))])
     elif "container" in v["sig"]:
         col = work_containers([len(d.get("task_log") or [0])])
     elif "set_last_datetime" in v["sig"]:
